@@ -50,7 +50,11 @@ fn lt<'a, T: Queryable>(lhs: State<'a, T>, rhs: State<'a, T>) -> bool {
         let lhs_f64 = lhs.as_f64().or_else(|| lhs.as_i64().map(|v| v as f64));
         let rhs_f64 = rhs.as_f64().or_else(|| rhs.as_i64().map(|v| v as f64));
         if let (Some(lhs_num), Some(rhs_num)) = (lhs_f64, rhs_f64) {
-            lhs_num < rhs_num
+            // two integers are ordered exactly; f64 cannot tell neighbours beyond 2^53 apart
+            match (lhs.as_i64(), rhs.as_i64()) {
+                (Some(l), Some(r)) => l < r,
+                _ => lhs_num < rhs_num,
+            }
         } else if let (Some(lhs), Some(rhs)) = (lhs.as_str(), rhs.as_str()) {
             lhs < rhs
         } else {
